@@ -23,7 +23,7 @@ RULE = ("layout cases = 4-60 sensors (uniform, clustered, near-collinear, regula
 ASSUMPTIONS = [
     "sensors within 1e-9 x extent of the boundary hull are ambiguous (retained or dropped)",
     "coordinates are relative (magnitude <= 1e4 x array extent, boundary extent <= 1e5): hvsrpy closes unbounded cells with far points at a fixed radius of 1e6",
-    "weights compared at 1e-8 + 50*eps*1e6/extent (fixed far-point radius) + 4*eps*M^2/(d_min*extent) (conditioning of circumcentres for coordinate magnitude M and smallest sensor separation d_min); invariances at 1e-7 + 4x that",
+    "weights compared at 1e-8 + 50*eps*1e6/extent (fixed far-point radius) + 16*eps*M^2/(d_min*extent) (conditioning of circumcentres for coordinate magnitude M and smallest sensor separation d_min); invariances at 1e-7 + 4x that",
 ]
 NOT_REACHED = ["fewer than four sensors inside the boundary", "coordinates beyond 1e4 x the array extent"]
 BUDGET = {"quick": dict(cases=2000, seconds=60, shards=4),
@@ -103,7 +103,7 @@ def fam_layout(ctx, rng):
     dmin = min(float(np.min(np.hypot(*(Pin[i] - np.delete(Pin, i, axis=0)).T))) for i in range(len(Pin)))
     if cls == "grid":
         dmin = min(dmin, 1e-4 * scale)      # nearly co-circular quadruples: the jitter, not the spacing, conditions the vertices
-    tol = 1e-8 + 50 * (1e6 / ext) * 2.2e-16 + 4 * 2.2e-16 * M * M / (max(dmin, 1e-300) * ext)
+    tol = 1e-8 + 50 * (1e6 / ext) * 2.2e-16 + 16 * 2.2e-16 * M * M / (max(dmin, 1e-300) * ext)
     info["tolerance"] = tol
     ctx.check(list(ind) == list(idx), "retained-indices", "returned indices are not the sensors strictly inside the boundary",
               got=list(ind)[:20], want=idx[:20], **info)
